@@ -94,3 +94,10 @@ Theorem c07_labels_belong_to_scheduled_threads : forall e progs sched,
   (length (c_labels (exec e (init progs) sched)) <= length sched)%nat.
 Proof. exact run_labels_belong_to_scheduled_threads. Qed.
 Print Assumptions c07_labels_belong_to_scheduled_threads.
+
+(** book-keeping of the wrapped iterator's use: in every reachable state the number of elements it has yielded
+    is at most the number of calls of its next() (each call is one step and yields at most one element) *)
+Theorem c07_yields_at_most_once_per_call : forall e progs sched,
+  (s_cur (c_sh (exec e (init progs) sched)) <= s_calls (c_sh (exec e (init progs) sched)))%N.
+Proof. exact yields_at_most_once_per_call. Qed.
+Print Assumptions c07_yields_at_most_once_per_call.
